@@ -148,7 +148,23 @@ ATOMS = [
 
 def gen_filter(ch, cases, depth=0):
     """(expression text, function case -> bool)"""
-    k = ch.weighted([(6, 'atom'), (2, 'and'), (2, 'or'), (1, 'not')]) if depth < 2 else 'atom'
+    k = ch.weighted([(6, 'atom'), (2, 'and'), (2, 'or'), (1, 'not'), (2, 'scoped')]) if depth < 2 else 'atom'
+    if k == 'scoped':
+        # the embedded query stands inside the body of a generator expression or a lambda (a nested scope of the expression)
+        some = sorted(set(i for cs in cases for i in cs.ids)) or [1001]
+        ds = tuple(ch.choice(some) for _ in range(ch.int(1, 2))) + ((1001,) if ch.bool(1, 3) else ())
+        form = ch.int(0, 3)
+        if form == 0:
+            return ('all(d in ${%%unexpanded_descriptors} for d in %r)' % (ds,),
+                    lambda case: all(d in md_value(case, 'unexpanded_descriptors', None) for d in ds))
+        if form == 1:
+            eds = tuple(sorted(set(ch.choice([2, 3, 4]) for _ in range(2))))
+            return ('any(e == ${ %%edition } for e in %r)' % (eds,), lambda case: any(e == md_value(case, 'edition', None) for e in eds))
+        if form == 2:
+            return ('bool(list(filter(lambda d: d in ${%%3.unexpanded_descriptors}, %r)))' % (ds,),
+                    lambda case: any(d in md_value(case, 'unexpanded_descriptors', 3) for d in ds))
+        n = ch.int(1, 3)
+        return ('(lambda k: ${%%n_subsets} >= k)(%d)' % n, lambda case: md_value(case, 'n_subsets', None) >= n)
     if k == 'atom':
         name, index, op, consts = ch.choice(ATOMS)
         c = ch.choice(consts)
